@@ -1,0 +1,21 @@
+//go:build verif
+
+package core
+
+// This file only exports unexported things for the /verif conformance harness.
+// It is compiled with -tags verif only.
+
+// VerifCycleCheck runs one pass of the cycle detector over the graph and returns
+// the labels of the reported cycle, or nil if none was reported.
+func VerifCycleCheck(graph *BuildGraph) []BuildLabel {
+	c := cycleDetector{graph: graph}
+	err := c.Check()
+	if err == nil {
+		return nil
+	}
+	labels := make([]BuildLabel, len(err.Cycle))
+	for i, t := range err.Cycle {
+		labels[i] = t.Label
+	}
+	return labels
+}
